@@ -191,6 +191,27 @@ func aolOps(acc aolAccounts, v aolVariant) []explore.Op {
 		txOp("AddRecord(A,a,by=X)", s(X), aoltypes.NewMsgAddRecordRequest("a", []byte("kx"), []byte("vx"), X.Bech, A.Bech, "")),
 		txOp("AddRecord(A,a,by=A)", s(A), aoltypes.NewMsgAddRecordRequest("a", []byte("ka"), []byte("va"), A.Bech, A.Bech, "")),
 	)
+	// rollback routes: a transaction whose later message fails (all of it is reverted), and transactions that are only
+	// simulated / checked on the node - none of them may leave any trace
+	failW := aoltypes.NewMsgAddRecordRequest("nosuchtopic", []byte("k"), []byte("v"), W.Bech, A.Bech, "")
+	failA := aoltypes.NewMsgAddWriter("nosuchtopic", "", "", X.Bech, A.Bech)
+	rb := func(o explore.Op) explore.Op { o.Rollback = true; return o }
+	ops = append(ops,
+		rb(txOp("Tx[AddWriter(A,a,X),failing]", s(A), aoltypes.NewMsgAddWriter("a", "x", "", X.Bech, A.Bech), failA)),
+		rb(txOp("Tx[AddRecord(A,a,by=W),failing]", s(W), aoltypes.NewMsgAddRecordRequest("a", []byte("kr"), []byte("vr"), W.Bech, A.Bech, ""), failW)),
+		rb(txOp("Tx[DeleteWriter(A,a,W),failing]", s(A), aoltypes.NewMsgDeleteWriter("a", W.Bech, A.Bech), failA)),
+	)
+	aux := func(kind, name string, signers []*world.Account, msgs ...sdk.Msg) explore.Op {
+		o := txOp(name, signers, msgs...)
+		o.Aux = kind
+		o.Rollback = true
+		return o
+	}
+	ops = append(ops,
+		aux("simulate", "Simulate(AddWriter(A,a,X))", s(A), aoltypes.NewMsgAddWriter("a", "x", "", X.Bech, A.Bech)),
+		aux("simulate", "Simulate(AddRecord(A,a,by=W))", s(W), aoltypes.NewMsgAddRecordRequest("a", []byte("ks"), []byte("vs"), W.Bech, A.Bech, "")),
+		aux("checktx", "CheckTx(CreateTopic(A,a))", s(A), aoltypes.NewMsgCreateTopic("a", "chk", A.Bech)),
+	)
 	if v.Forged {
 		addWriterURL := sdk.MsgTypeURL(&aoltypes.MsgAddWriterRequest{})
 		delWriterURL := sdk.MsgTypeURL(&aoltypes.MsgDeleteWriterRequest{})
@@ -796,6 +817,14 @@ func pageMatrix(s *explore.State, what, id string, want []string, call func(*que
 type aolInject struct {
 	Owners [][]byte
 	Topics []string
+	// Big: a topic (owner, name) that already holds N records written by Writer (offset encodings beyond one byte)
+	Big *aolBig
+}
+
+type aolBig struct {
+	Owner, Writer *world.Account
+	Name          string
+	N             int
 }
 
 func (in *aolInject) writerAddr() []byte { return bytes.Repeat([]byte{0x77}, 33) }
@@ -819,10 +848,26 @@ func (in *aolInject) mutate(gs map[string]json.RawMessage, cdc codec.Codec) {
 			g.Records[ob+"/"+t+"/0"] = &aoltypes.Record{Key: []byte("ik"), Value: []byte("iv"), NanoTimestamp: 7, WriterAddress: wr.String()}
 		}
 	}
+	if b := in.Big; b != nil {
+		ob := b.Owner.Bech
+		g.Owners[ob] = &aoltypes.Owner{TotalTopics: 1}
+		g.Topics[ob+"/"+b.Name] = &aoltypes.Topic{Description: "big", TotalWriters: 1, TotalRecords: uint64(b.N)}
+		g.Writers[ob+"/"+b.Name+"/"+b.Writer.Bech] = &aoltypes.Writer{Moniker: "w", NanoTimestamp: 9}
+		for i := 0; i < b.N; i++ {
+			g.Records[fmt.Sprintf("%s/%s/%d", ob, b.Name, i)] = &aoltypes.Record{Key: []byte(fmt.Sprint(i)), Value: []byte("big"), NanoTimestamp: 9, WriterAddress: b.Writer.Bech}
+		}
+	}
 	gs["aol"] = cdc.MustMarshalJSON(&g)
 }
 
 func (in *aolInject) fillModel(m *aolModel) {
+	if b := in.Big; b != nil {
+		t := &aolTopic{Owner: string(b.Owner.Addr), Name: b.Name, Desc: "big", Writers: map[string]aolWriter{string(b.Writer.Addr): {Moniker: "w", TS: 9}}}
+		for i := 0; i < b.N; i++ {
+			t.Records = append(t.Records, aolRecord{Key: []byte(fmt.Sprint(i)), Value: []byte("big"), Writer: b.Writer.Bech, TS: 9})
+		}
+		m.Topics[tkey(b.Owner.Addr, b.Name)] = t
+	}
 	wr := sdk.AccAddress(in.writerAddr())
 	for _, o := range in.Owners {
 		for _, t := range in.Topics {
@@ -847,9 +892,18 @@ func C01(t Tier) int {
 		bounds = []explore.Bounds{{Depth: 4, V: 1, Deadline: dl}, {Depth: 5, V: 1, Deadline: dl}, {Depth: 5, V: 2, Deadline: dl}, {Depth: 6, V: 2, Deadline: dl}}
 	}
 	RunGraph(run, sys, bounds, 6)
+	// second initial state: topic (A,a) already holds 255 records (genesis-injected), so that the explored appends are
+	// handed offsets 255, 256, 257 (offset encodings beyond one byte)
+	acc := aolAccs()
+	big := aolSystem(aolVariant{ID: "C01/big", OwnRec: true, Ctl: []string{"NB", "XI"}, Inject: &aolInject{Big: &aolBig{Owner: acc.A, Writer: acc.W, Name: "a", N: 255}}})
+	st, tr := run.Coverage["states"].(int), run.Coverage["transitions"].(int64)
+	RunGraph(run, big, []explore.Bounds{{Depth: 3, V: 1, Deadline: dl}}, 6)
+	run.Coverage["states_big_offset_run"] = run.Coverage["states"]
+	run.Coverage["states"] = st + run.Coverage["states"].(int)
+	run.Coverage["transitions"] = tr + run.Coverage["transitions"].(int64)
 	run.Assumptions = []string{
 		"alphabet: 2 owners x 2 topic names (a, ab: one a byte-prefix of the other), writers W and A, fee payer F, outsider X; record values from a 5-entry menu",
-		"offsets >= 256 and values outside the alphabet are not explored",
+		"offsets up to 257 are reached through a genesis-injected topic holding 255 records; larger offsets and values outside the alphabet are not explored",
 		"acceptance decisions are followed, not judged (that is C02); records/offsets are judged on every transition and state",
 	}
 	return run.Finish()
